@@ -286,20 +286,24 @@ def shrink_values(S, ok, deadline):
     return cur
 
 
-def minimise(S, oracle_classes, prop, clause, budget_s=25.0, log=None):
-    """Returns (minimised spec, result of its run, number of candidate runs)."""
+def minimise(S, oracle_classes, prop, clause, budget_s=25.0, log=None, runner=None):
+    """Returns (minimised spec, result of its run, number of candidate runs).
+    runner: the profile's own run function for differential checks (default: a plain run under the oracles)."""
     deadline = time.time() + budget_s
     runs = [0]
+    if runner is None:
+        def runner(T):
+            return run_spec(T, oracle_classes, wall=10)
 
     def ok(T):
         runs[0] += 1
         try:
-            return _same(run_spec(T, oracle_classes, wall=10), prop, clause)
+            return _same(runner(T), prop, clause)
         except Exception:
             return False
 
     cur = S
-    res = run_spec(cur, oracle_classes)
+    res = runner(cur)
     if not _same(res, prop, clause):
         return S, res, 0
     # 1. cut the tail: stop right after the failing step
@@ -324,14 +328,14 @@ def minimise(S, oracle_classes, prop, clause, budget_s=25.0, log=None):
                 break
     # 3. explicit tapes, then shrink the values
     full = run_spec(cur, oracle_classes, keep=True)
-    if _same(full, prop, clause):
+    if "R" in full and hasattr(full["R"], "B"):
         mat = materialise(cur, full["R"])
         if ok(mat):
             cur = shrink_values(mat, ok, deadline)
-    res = run_spec(cur, oracle_classes)
+    res = runner(cur)
     if _same(res, prop, clause) and res["phase"] == "run":
         cand = _set(cur, ["cap"], res["step"])
         if cand is not None and ok(cand):
             cur = cand
-            res = run_spec(cur, oracle_classes)
+            res = runner(cur)
     return cur, res, runs[0]
